@@ -132,8 +132,16 @@ def run(facts, tier):
                                         "children of the selected element are not the parsed replacement" % (v, made, want[v]), f["file"], arm.get("ln"), {}))
     if st6["instances"] < 5:
         raise BrokenCheck("C17-6: %d node kinds rebuilt in append_child_to_tree (floor 5)" % st6["instances"])
+    # ---- C17-8: xq prints the selection in document order, each node once (typestate of C07); its compact output is the
+    # printers' output (quoting, XML declaration order, presence paths of C04)
+    from props import c07, c04
+    c07.summary_rule(facts, res, "C17-8")
+    c04.r04_4(facts, res)
+    c04.r04_7(facts, res)
+    c04.r04_8(facts, res)
     # ---- C17-7: xe empties the selected node with child_nodes() + remove_child(); merged text nodes must go completely
     from props import c13
     c13.r13_5(facts, res, "C17-7")
+    c13.r13_7(facts, res, "C17-9")     # xe appends the replacement to nodes it has just emptied or detached
     res.functions_analysed = sum(1 for f in facts.fns.values() if f["crate"] in TOOLS)
     return res
